@@ -542,6 +542,10 @@ pub fn items(prop: &str, tier: &str) -> Vec<Item> {
         }
         _ => {}
     }
+    // longest explorations first (emulated backend, '..'-heavy paths), so that the pool does not end on a few stragglers
+    if matches!(prop, "C02" | "C03" | "C13") {
+        v.sort_by_key(|it| (!it.bundle.is_empty(), it.scen.backend != "E", std::cmp::Reverse(it.scen.path.matches("..").count() * 10 + it.scen.path.len())));
+    }
     v
 }
 
